@@ -12,6 +12,7 @@ import (
 	"io"
 	"net"
 	"net/http"
+	"os"
 	"sort"
 	"strings"
 	"sync"
@@ -800,6 +801,68 @@ func (w *worker) runScenario(g *hx.Gen, kind int) (*scen, string) {
 	return sc, sc.render()
 }
 
+// openSockets counts the socket descriptors of this process.
+func openSockets() int {
+	ents, err := os.ReadDir("/proc/self/fd")
+	if err != nil {
+		return -1
+	}
+	n := 0
+	for _, e := range ents {
+		if l, err := os.Readlink("/proc/self/fd/" + e.Name()); err == nil && strings.HasPrefix(l, "socket:") {
+			n++
+		}
+	}
+	return n
+}
+
+// retryCloseCheck (run alone, before the parallel part): k pooled connections are reset by the peer, a user
+// arrives, the retry loop of GetWorkConnFromPool meets them; every failed connection must have been closed
+// by the server: the process-wide socket count goes down by one per failed connection (server end) and up
+// by one (our user socket; the server's end of it is closed again when the loop gives up).
+func retryCloseCheck(w *worker, g *hx.Gen) []map[string]any {
+	sc := &scen{g: g, w: w, ports: map[string]int{}, cpc: 2}
+	p, _, err := w.srv.Login(hx.LoginOpts{PoolCount: 2})
+	if err != nil || p == nil {
+		return []map[string]any{{"key": "setup", "what": "retryCloseCheck login failed", "case": "retry"}}
+	}
+	sc.peer, sc.runID = p, p.RunID
+	defer sc.cleanup()
+	port := hx.FreePort(w.addr)
+	if r, err := p.NewProxy(&msg.NewProxy{ProxyName: "pa", ProxyType: "tcp", RemotePort: port}); err != nil || r.Error != "" {
+		return []map[string]any{{"key": "setup", "what": "retryCloseCheck proxy failed", "case": "retry"}}
+	}
+	sc.ports["pa"], sc.ports["pb"] = port, port
+	sc.ctl = w.srv.Svc.VerifC11Control(sc.runID)
+	go func() {
+		for {
+			if _, err := p.Recv(time.Hour); err != nil {
+				return
+			}
+		}
+	}()
+	pc := sc.ctl.VerifC11PoolCount()
+	k := pc + 1 // exactly as many dead ones as the loop tries
+	for i := 0; i < k; i++ {
+		sc.opWork()
+	}
+	for i := 0; i < k; i++ {
+		sc.opKill()
+	}
+	time.Sleep(50 * time.Millisecond)
+	before := openSockets()
+	sc.opUser()
+	time.Sleep(100 * time.Millisecond)
+	after := openSockets()
+	want := before - k + 1
+	if before < 0 || after == want {
+		return nil
+	}
+	return []map[string]any{{"key": "retry-conn-not-closed",
+		"what": fmt.Sprintf("after the retry loop met %d reset pooled connections the process holds %d sockets, expected %d (%d before): a failed work connection was not closed by the server", k, after, want, before),
+		"case": "login(pc=2) " + strings.Join(sc.ops, " ")}}
+}
+
 func runPool(cfg *hx.RunCfg) error {
 	hx.Quiet()
 	hooks.install()
@@ -823,6 +886,7 @@ func runPool(cfg *hx.RunCfg) error {
 		w.srv = s
 		workers = append(workers, w)
 	}
+	preFails := retryCloseCheck(workers[0], hx.NewGen(cfg.Seed))
 	type res struct {
 		i    int
 		sc   *scen
@@ -852,7 +916,7 @@ func runPool(cfg *hx.RunCfg) error {
 		w.srv.Close()
 	}
 	var cases []string
-	var fails []map[string]any
+	fails := preFails
 	dist := map[string]int{}
 	distinct := map[string]bool{}
 	var samples []string
